@@ -4,10 +4,17 @@ package main
 //   - every pointer-typed (optional) field of the wire / consensus structs;
 //   - every function of the handler / validation path that selects THROUGH such a field (x.F.g, x.F.m(), *x.F);
 //     name based (no type information), i.e. an over-approximation;
+//   - for every such dereference whether a nil test of the SAME access path dominates it (`p.F != nil && p.F.x`,
+//     `p.F == nil || p.F.x`, inside `if p.F != nil {…}`, in the else branch of `if p.F == nil`, after a guard clause
+//     `if p.F == nil || … { return }`): guarded dereferences are safe by construction, the UNGUARDED ones are what the
+//     expectation list classifies and pins, per (function, field);
 //   - the decoded-length cap of protocol.Decode.
-// Every (function, field) pair with its site count goes to the Lean driver as an op line together with the class the
-// expectation list (derefs_expected.tsv, embedded) gives it; a pair that is not in the list is `unclassified`, a
-// changed count is `count-changed`: both make the driver answer differ from `ok` (the obligation fails loudly).
+// The key of a row is (function, field): no local variable name, no line number — renaming a variable, dropping an
+// `else` after `return`, turning a nested `if` into a guard clause or adding guarded dereferences does not change a row.
+// A row whose function is new but whose file had an expected row of the same field and the same count in a function
+// that no longer has it is a site that MOVED within the file (extract-function refactoring): it inherits the class.
+// A pair that is not in the list is `unclassified`, a changed number of unguarded dereferences is `count-changed`: both
+// make the driver answer differ from `ok` (the obligation fails loudly).
 
 import (
 	_ "embed"
@@ -20,6 +27,7 @@ import (
 	"os"
 	"path/filepath"
 	"sort"
+	"strconv"
 	"strings"
 )
 
@@ -40,9 +48,11 @@ var censusDirs = []string{"protocol", "blockchain/types", "blockchain/validation
 	"blockchain", "pengings", "consensus", "core/mempool", "core/flip", "core/upgrade"}
 
 type censusRow struct {
-	Fn, Field, Root string // Root: the variable the selection starts from (e.g. prevBlock in prevBlock.ProposedHeader.Upgrade)
-	Count           int    // dereference sites
-	Guards          int    // comparisons of Root…Field with nil in the same function (==, !=)
+	Fn, Field string // Fn = <dir>:<Receiver.>Func
+	File      string // base name of the source file
+	Unguarded int    // dereferences not dominated by a nil test of the same access path
+	Guarded   int    // dominated ones (informational, not pinned)
+	MovedFrom string // expectation row this one inherits from (site moved within the file)
 }
 
 type census struct {
@@ -108,8 +118,11 @@ func runCensus(repo string) (*census, error) {
 	if len(cs.Fields) == 0 {
 		return nil, fmt.Errorf("census: no optional fields found under %s", repo)
 	}
-	pairs := map[[3]string]int{}
-	guards := map[[3]string]int{}
+	type acc struct {
+		file       string
+		ung, guard int
+	}
+	pairs := map[[2]string]*acc{}
 	for _, d := range censusDirs {
 		ents, err := os.ReadDir(filepath.Join(repo, d))
 		if err != nil {
@@ -124,6 +137,15 @@ func runCensus(repo string) (*census, error) {
 			af, err := parser.ParseFile(fset, filepath.Join(repo, d, nm), nil, 0)
 			if err != nil {
 				return nil, fmt.Errorf("census: %v", err)
+			}
+			pkgNames := map[string]bool{}
+			for _, im := range af.Imports {
+				pth, _ := strconv.Unquote(im.Path.Value)
+				name := pth[strings.LastIndex(pth, "/")+1:]
+				if im.Name != nil {
+					name = im.Name.Name
+				}
+				pkgNames[name] = true
 			}
 			for _, decl := range af.Decls {
 				switch x := decl.(type) {
@@ -147,86 +169,227 @@ func runCensus(repo string) (*census, error) {
 						continue
 					}
 					fn := d + ":" + funcName(x)
-					ast.Inspect(x.Body, func(n ast.Node) bool {
-						switch y := n.(type) {
-						case *ast.SelectorExpr:
-							if in, ok := y.X.(*ast.SelectorExpr); ok {
-								if _, isOpt := cs.Fields[in.Sel.Name]; isOpt {
-									pairs[[3]string{fn, in.Sel.Name, rootIdent(in.X)}]++
-								}
-							}
-							// Decode's use of the cap and DecodedLen (the allocation gate)
-							if fn == "protocol:Decode" {
+					if fn == "protocol:Decode" {
+						ast.Inspect(x.Body, func(n ast.Node) bool {
+							switch y := n.(type) {
+							case *ast.SelectorExpr:
 								if y.Sel.Name == "DecodedLen" {
 									cs.Gates["Decode:DecodedLen"] = true
 								}
-							}
-						case *ast.StarExpr:
-							if in, ok := y.X.(*ast.SelectorExpr); ok {
-								if _, isOpt := cs.Fields[in.Sel.Name]; isOpt {
-									pairs[[3]string{fn, "*" + in.Sel.Name, rootIdent(in.X)}]++
+							case *ast.Ident:
+								if y.Name == "maxDecodedMsgSize" {
+									cs.Gates["Decode:maxDecodedMsgSize"] = true
 								}
 							}
-						case *ast.BinaryExpr:
-							if y.Op == token.EQL || y.Op == token.NEQ {
-								for _, pr := range [][2]ast.Expr{{y.X, y.Y}, {y.Y, y.X}} {
-									if id, ok := pr[1].(*ast.Ident); ok && id.Name == "nil" {
-										if se, ok := pr[0].(*ast.SelectorExpr); ok {
-											if _, isOpt := cs.Fields[se.Sel.Name]; isOpt {
-												guards[[3]string{fn, se.Sel.Name, rootIdent(se.X)}]++
-											}
-										}
-									}
-								}
-							}
-						case *ast.Ident:
-							if fn == "protocol:Decode" && y.Name == "maxDecodedMsgSize" {
-								cs.Gates["Decode:maxDecodedMsgSize"] = true
-							}
+							return true
+						})
+					}
+					w := &derefWalker{fields: cs.Fields, pkgNames: pkgNames, hit: func(field string, guarded bool) {
+						k := [2]string{fn, field}
+						a := pairs[k]
+						if a == nil {
+							a = &acc{file: nm}
+							pairs[k] = a
 						}
-						return true
-					})
+						if guarded {
+							a.guard++
+						} else {
+							a.ung++
+						}
+					}}
+					w.stmts(x.Body.List, map[string]bool{})
 				}
 			}
 		}
 	}
 	for k, v := range pairs {
-		g := guards[[3]string{k[0], strings.TrimPrefix(k[1], "*"), k[2]}]
-		cs.Rows = append(cs.Rows, censusRow{k[0], k[1], k[2], v, g})
+		cs.Rows = append(cs.Rows, censusRow{Fn: k[0], Field: k[1], File: v.file, Unguarded: v.ung, Guarded: v.guard})
 	}
 	sort.Slice(cs.Rows, func(i, j int) bool {
 		a, b := cs.Rows[i], cs.Rows[j]
 		if a.Fn != b.Fn {
 			return a.Fn < b.Fn
 		}
-		if a.Field != b.Field {
-			return a.Field < b.Field
-		}
-		return a.Root < b.Root
+		return a.Field < b.Field
 	})
 	return cs, nil
 }
 
-// rootIdent: the identifier an access path starts from (x in x.a.b, x.f().c, x[i].d); "_" if there is none
-func rootIdent(e ast.Expr) string {
+// derefWalker walks a function body keeping the set of access paths known to be non-nil at each point.
+type derefWalker struct {
+	fields   map[string][]string
+	pkgNames map[string]bool
+	hit      func(field string, guarded bool)
+}
+
+func copySet(m map[string]bool, extra []string) map[string]bool {
+	if len(extra) == 0 {
+		return m
+	}
+	c := make(map[string]bool, len(m)+len(extra))
+	for k := range m {
+		c[k] = true
+	}
+	for _, e := range extra {
+		c[e] = true
+	}
+	return c
+}
+
+func unparen(e ast.Expr) ast.Expr {
 	for {
-		switch x := e.(type) {
-		case *ast.Ident:
-			return x.Name
-		case *ast.SelectorExpr:
-			e = x.X
-		case *ast.CallExpr:
-			e = x.Fun
-		case *ast.IndexExpr:
-			e = x.X
-		case *ast.ParenExpr:
-			e = x.X
-		case *ast.StarExpr:
-			e = x.X
-		case *ast.TypeAssertExpr:
-			e = x.X
+		p, ok := e.(*ast.ParenExpr)
+		if !ok {
+			return e
+		}
+		e = p.X
+	}
+}
+
+// nilTest: e is `P == nil` / `P != nil` (either side) -> (path of P, op)
+func nilTest(e ast.Expr) (string, token.Token, bool) {
+	b, ok := unparen(e).(*ast.BinaryExpr)
+	if !ok || (b.Op != token.EQL && b.Op != token.NEQ) {
+		return "", 0, false
+	}
+	for _, pr := range [][2]ast.Expr{{b.X, b.Y}, {b.Y, b.X}} {
+		if id, ok := unparen(pr[1]).(*ast.Ident); ok && id.Name == "nil" {
+			return types.ExprString(unparen(pr[0])), b.Op, true
+		}
+	}
+	return "", 0, false
+}
+
+// nonNilWhen: access paths that are non-nil when cond evaluates to `truth`
+func nonNilWhen(cond ast.Expr, truth bool) []string {
+	cond = unparen(cond)
+	if u, ok := cond.(*ast.UnaryExpr); ok && u.Op == token.NOT {
+		return nonNilWhen(u.X, !truth)
+	}
+	if b, ok := cond.(*ast.BinaryExpr); ok {
+		if (truth && b.Op == token.LAND) || (!truth && b.Op == token.LOR) {
+			return append(nonNilWhen(b.X, truth), nonNilWhen(b.Y, truth)...)
+		}
+	}
+	if p, op, ok := nilTest(cond); ok {
+		if (truth && op == token.NEQ) || (!truth && op == token.EQL) {
+			return []string{p}
+		}
+	}
+	return nil
+}
+
+func terminates(list []ast.Stmt) bool {
+	if len(list) == 0 {
+		return false
+	}
+	switch x := list[len(list)-1].(type) {
+	case *ast.ReturnStmt:
+		return true
+	case *ast.BranchStmt:
+		return x.Tok == token.CONTINUE || x.Tok == token.BREAK || x.Tok == token.GOTO
+	case *ast.ExprStmt:
+		if c, ok := x.X.(*ast.CallExpr); ok {
+			if id, ok := c.Fun.(*ast.Ident); ok && id.Name == "panic" {
+				return true
+			}
+		}
+	case *ast.BlockStmt:
+		return terminates(x.List)
+	}
+	return false
+}
+
+// stmts walks a statement list; a guard clause (`if c { …; return }`) extends the known set for what follows
+func (w *derefWalker) stmts(list []ast.Stmt, known map[string]bool) {
+	for _, st := range list {
+		w.node(st, known)
+		if ifs, ok := st.(*ast.IfStmt); ok {
+			bodyEnds := terminates(ifs.Body.List)
+			elseEnds := false
+			if eb, ok := ifs.Else.(*ast.BlockStmt); ok {
+				elseEnds = terminates(eb.List)
+			}
+			switch {
+			case bodyEnds && !elseEnds:
+				known = copySet(known, nonNilWhen(ifs.Cond, false))
+			case elseEnds && !bodyEnds && ifs.Else != nil:
+				known = copySet(known, nonNilWhen(ifs.Cond, true))
+			}
+		}
+	}
+}
+
+func directChildren(n ast.Node) []ast.Node {
+	var out []ast.Node
+	first := true
+	ast.Inspect(n, func(c ast.Node) bool {
+		if c == nil {
+			return false
+		}
+		if first {
+			first = false
+			return true
+		}
+		out = append(out, c)
+		return false
+	})
+	return out
+}
+
+func (w *derefWalker) optional(sel *ast.SelectorExpr) bool {
+	_, ok := w.fields[sel.Sel.Name]
+	return ok
+}
+
+func (w *derefWalker) node(n ast.Node, known map[string]bool) {
+	switch x := n.(type) {
+	case nil:
+		return
+	case *ast.BlockStmt:
+		w.stmts(x.List, known)
+	case *ast.CaseClause:
+		for _, e := range x.List {
+			w.node(e, known)
+		}
+		w.stmts(x.Body, known)
+	case *ast.CommClause:
+		w.node(x.Comm, known)
+		w.stmts(x.Body, known)
+	case *ast.IfStmt:
+		if x.Init != nil {
+			w.node(x.Init, known)
+		}
+		w.node(x.Cond, known)
+		w.stmts(x.Body.List, copySet(known, nonNilWhen(x.Cond, true)))
+		if x.Else != nil {
+			w.node(x.Else, copySet(known, nonNilWhen(x.Cond, false)))
+		}
+	case *ast.BinaryExpr:
+		w.node(x.X, known)
+		switch x.Op {
+		case token.LAND:
+			w.node(x.Y, copySet(known, nonNilWhen(x.X, true)))
+		case token.LOR:
+			w.node(x.Y, copySet(known, nonNilWhen(x.X, false)))
 		default:
-			return "_"
+			w.node(x.Y, known)
+		}
+	case *ast.SelectorExpr:
+		if in, ok := unparen(x.X).(*ast.SelectorExpr); ok && w.optional(in) {
+			w.hit(in.Sel.Name, known[types.ExprString(in)])
+		}
+		w.node(x.X, known)
+	case *ast.StarExpr:
+		if in, ok := unparen(x.X).(*ast.SelectorExpr); ok && w.optional(in) {
+			if id, isId := in.X.(*ast.Ident); !(isId && w.pkgNames[id.Name]) { // *types.Block is a type, not a dereference
+				w.hit("*"+in.Sel.Name, known[types.ExprString(in)])
+			}
+		}
+		w.node(x.X, known)
+	default:
+		for _, c := range directChildren(n) {
+			w.node(c, known)
 		}
 	}
 }
@@ -244,14 +407,15 @@ func exprString(e ast.Expr) string {
 }
 
 type expectation struct {
-	Class  string
-	Count  int
-	Guards int
-	Reason string
+	Fn, Field, File string
+	Class           string
+	Unguarded       int
+	Reason          string
 }
 
-func loadExpectations() map[[3]string]expectation {
-	m := map[[3]string]expectation{}
+// loadExpectations: rows fn, field, file, unguarded, guarded (informational), class, reason
+func loadExpectations() map[[2]string]expectation {
+	m := map[[2]string]expectation{}
 	for _, l := range strings.Split(derefsExpected, "\n") {
 		if l == "" || strings.HasPrefix(l, "#") {
 			continue
@@ -260,10 +424,56 @@ func loadExpectations() map[[3]string]expectation {
 		if len(p) < 7 {
 			continue
 		}
-		var n, g int
+		var n int
 		fmt.Sscan(p[3], &n)
-		fmt.Sscan(p[4], &g)
-		m[[3]string{p[0], p[1], p[2]}] = expectation{Class: p[5], Count: n, Guards: g, Reason: p[6]}
+		m[[2]string{p[0], p[1]}] = expectation{Fn: p[0], Field: p[1], File: p[2], Class: p[5], Unguarded: n, Reason: p[6]}
 	}
 	return m
+}
+
+// classify attaches the expectation to every census row; rows of functions the list does not know inherit from an
+// expected row of the same directory, file, field and count whose function no longer has that field (moved site).
+func classify(rows []censusRow, exp map[[2]string]expectation) []struct {
+	Row censusRow
+	Exp *expectation
+} {
+	present := map[[2]string]bool{}
+	for _, r := range rows {
+		present[[2]string{r.Fn, r.Field}] = true
+	}
+	used := map[[2]string]bool{}
+	out := make([]struct {
+		Row censusRow
+		Exp *expectation
+	}, len(rows))
+	for i, r := range rows {
+		out[i].Row = r
+		if e, ok := exp[[2]string{r.Fn, r.Field}]; ok {
+			ec := e
+			out[i].Exp = &ec
+		}
+	}
+	var keys [][2]string
+	for k := range exp {
+		keys = append(keys, k)
+	}
+	sort.Slice(keys, func(i, j int) bool { return keys[i][0]+"|"+keys[i][1] < keys[j][0]+"|"+keys[j][1] })
+	for i, r := range rows {
+		if out[i].Exp != nil {
+			continue
+		}
+		dir := r.Fn[:strings.Index(r.Fn, ":")+1]
+		for _, k := range keys {
+			e := exp[k]
+			if present[k] || used[k] || e.Field != r.Field || e.File != r.File || !strings.HasPrefix(e.Fn, dir) || e.Unguarded != r.Unguarded {
+				continue
+			}
+			ec := e
+			out[i].Exp = &ec
+			out[i].Row.MovedFrom = e.Fn
+			used[k] = true
+			break
+		}
+	}
+	return out
 }
